@@ -11,6 +11,7 @@ import (
 	"golang.org/x/tools/go/packages"
 
 	"verif/tool/core"
+	"verif/tool/goan"
 	"verif/tool/load"
 	"verif/tool/tmpl"
 )
@@ -24,6 +25,7 @@ type Ctx struct {
 	// TmplOverlay replaces template files (repo-relative path -> content).
 	TmplOverlay map[string]string
 	ExtraEnv    []string
+	rel         *goan.Rel
 }
 
 func NewCtx(r *core.Run) *Ctx {
